@@ -95,6 +95,14 @@ pub fn check(ctx: &Ctx, case: &Case, obs: &mut Obs, with_storage: bool) -> Check
                 obs.count(&format!("limited_query_error: {}", short_err(&e)), 1);
             }
         }
+        // the same through the plain engine API, without a cancel flag armed (the unlimited run above
+        // has shown that the program terminates): a limit that stops early via the cancel flag makes
+        // the armed run fail, here it shows as a wrong answer
+        match run_iql(case, &RunCfg { max_rows: n, no_cancel: true, ..RunCfg::default() }) {
+            Ok(got) => judge(case, "IQLEngine::set_max_result_rows (no cancel flag armed)", n, &a, &got, multi_rule)?,
+            Err(EngErr::Watchdog) => {}
+            Err(EngErr::Rejected(e)) => obs.count(&format!("limited_query_error (no cancel flag): {}", short_err(&e)), 1),
+        }
     }
     if with_storage {
         use crate::common::store::*;
@@ -138,6 +146,58 @@ pub fn check(ctx: &Ctx, case: &Case, obs: &mut Obs, with_storage: bool) -> Check
     Ok(())
 }
 
+/// Programs in which two rules share a sub-plan (same atom with a constant, same filtered scan, same
+/// join), so that the optimizer's subplan sharing materialises an intermediate view that the rules
+/// (positively or under negation) read: a limit must not touch that view either.
+fn shared_subplan_case(tape: &[u16]) -> Case {
+    use crate::common::gen::Tape;
+    use crate::common::prog::{Atom, Clause, Edb, Lit, Op, Program, HT, T};
+    let mut t = Tape::new(tape);
+    let pos = |rel: &str, args: Vec<T>| Lit::Pos(Atom { rel: rel.into(), args });
+    let neg = |rel: &str, args: Vec<T>| Lit::Neg(Atom { rel: rel.into(), args });
+    let c = t.below(3) as i64;
+    // the shared fragment over s(X, T)
+    let frag = |t: &mut Tape, kind: usize| -> Vec<Lit> {
+        match kind {
+            0 => vec![pos("s", vec![T::V(0), T::C(c)])],
+            1 => vec![pos("s", vec![T::V(0), T::V(1)]), Lit::Cmp(T::V(1), [Op::Gt, Op::Ge, Op::Ne][t.below(3)], T::C(c))],
+            _ => vec![pos("s", vec![T::V(0), T::V(1)]), pos("u", vec![T::V(1), T::V(2)])],
+        }
+    };
+    let kind = t.below(3);
+    let f1 = frag(&mut t, kind);
+    let v1 = Clause { head: "v1".into(), hargs: vec![HT::V(0)], body: f1.clone() };
+    let mut b2 = f1;
+    if t.chance(2, 3) {
+        b2.push(pos("w", vec![T::V(0)]));
+    }
+    let v2 = Clause { head: "v2".into(), hargs: vec![HT::V(0)], body: b2 };
+    let q = match t.below(3) {
+        0 => Clause { head: "q".into(), hargs: vec![HT::V(0)], body: vec![pos("v1", vec![T::V(0)]), neg("v2", vec![T::V(0)])] },
+        1 => Clause { head: "q".into(), hargs: vec![HT::V(0)], body: vec![pos("v1", vec![T::V(0)]), pos("v2", vec![T::V(0)])] },
+        _ => Clause { head: "q".into(), hargs: vec![HT::V(0), HT::V(1)], body: vec![pos("v1", vec![T::V(0)]), pos("v2", vec![T::V(1)]), Lit::Cmp(T::V(0), Op::Lt, T::V(1))] },
+    };
+    let mut edb = Edb::new();
+    let mut rows = |t: &mut Tape, n: usize, ar: usize, dom: [usize; 3]| -> Vec<Vec<i64>> {
+        let mut out: Vec<Vec<i64>> = Vec::new();
+        for _ in 0..n {
+            let r: Vec<i64> = (0..ar).map(|i| t.below(dom[i]) as i64).collect();
+            if !out.contains(&r) {
+                out.push(r);
+            }
+        }
+        out
+    };
+    let ns = 4 + t.below(8);
+    edb.insert("s".into(), rows(&mut t, ns, 2, [9, 3, 1]));
+    let nu = 2 + t.below(4);
+    edb.insert("u".into(), rows(&mut t, nu, 2, [3, 3, 1]));
+    let nw = 1 + t.below(5);
+    edb.insert("w".into(), rows(&mut t, nw, 1, [9, 1, 1]));
+    let arity = [("s", 2usize), ("u", 2), ("w", 1), ("v1", 1), ("v2", 1), ("q", q.hargs.len())].into_iter().map(|(a, b)| (a.to_string(), b)).collect();
+    Case { prog: Program { clauses: vec![v1, v2, q] }, edb, arity }
+}
+
 pub fn run(ctx: &Ctx) {
     ctx.set_rule(
         "G-prog x G-edb (multi-rule programs with negation over intermediates); A = the engine's unlimited answer, used only when it \
@@ -148,12 +208,22 @@ pub fn run(ctx: &Ctx) {
     ctx.assume("R1 validates the unlimited answer; limited runs that return Err are counted, not judged");
     ctx.run_part_with("iql_engine_limits", ctx.cases(8000, 120_000), || case_strategy(opts()), |c, o| check(ctx, c, o, false), Some(&crate::common::gen::shrink_case));
     ctx.run_part_with("storage_limits", ctx.cases(800, 12_000), || case_strategy(opts()), |c, o| check(ctx, c, o, true), Some(&crate::common::gen::shrink_case));
+    // rules that share a sub-plan (the optimizer materialises it as an intermediate view)
+    use proptest::prelude::*;
+    ctx.run_part_with(
+        "shared_subplans",
+        ctx.cases(2000, 30_000),
+        || crate::common::gen::tape_strategy(60).prop_map(|t| shared_subplan_case(&t)),
+        |c, o| check(ctx, c, o, false),
+        Some(&crate::common::gen::shrink_case),
+    );
 }
 
 pub fn replay(ctx: &Ctx, part: &str, case: &J) -> Option<Result<CheckResult, String>> {
     Some(match part {
         "iql_engine_limits" => ctx.replay_case(part, case, |c: &Case, o: &mut Obs| check(ctx, c, o, false)),
         "storage_limits" => ctx.replay_case(part, case, |c: &Case, o: &mut Obs| check(ctx, c, o, true)),
+        "shared_subplans" => ctx.replay_case(part, case, |c: &Case, o: &mut Obs| check(ctx, c, o, false)),
         _ => return None,
     })
 }
